@@ -722,6 +722,42 @@ fn round_blocking(rt: &tokio::runtime::Runtime, seed: u64, hb: &Heartbeat, tot: 
             }
         }
     }
+    // 4c. the type-erased forwarders must behave like the direct calls from inside a runtime as well
+    for (label, ctk) in [("runtime worker", false), ("current-thread runtime", true)] {
+        for kind in [BKind::ErasedTell(Some(3)), BKind::ErasedAsk(Some(3))] {
+            let (a2, sh2) = (a.clone(), sh.clone());
+            let (tx, rx) = std::sync::mpsc::channel();
+            if ctk {
+                std::thread::spawn(move || {
+                    let ct = tokio::runtime::Builder::new_current_thread().enable_time().build().unwrap();
+                    let r = std::panic::catch_unwind(std::panic::AssertUnwindSafe(|| ct.block_on(async { send_blocking(&sh2, Ctx::Client(15), 0, &a2, kind, Body::plain(uid())) })));
+                    let _ = tx.send(r.map_err(|_| ()));
+                });
+            } else {
+                rt.spawn(async move {
+                    let r = std::panic::catch_unwind(std::panic::AssertUnwindSafe(|| send_blocking(&sh2, Ctx::Client(16), 0, &a2, kind, Body::plain(uid()))));
+                    let _ = tx.send(r.map_err(|_| ()));
+                });
+            }
+            *o.entry("C16.blocking").or_default() += 1;
+            let msg = match rx.recv_timeout(Duration::from_secs(10)) {
+                Ok(Ok((Res::Timeout, _))) => None,
+                Ok(Ok((res, _))) => Some(format!("erased {kind:?} called from a {label} against a full mailbox returned {res:?} (the direct call returns Timeout)")),
+                Ok(Err(())) => Some(format!("erased {kind:?} called from a {label} panicked (the direct call returns Timeout): {:?}", LAST_PANIC.with(|l| l.borrow().clone()))),
+                Err(_) => {
+                    if hb.max_late_since(bucket0) < STALL_US {
+                        Some(format!("erased {kind:?} called from a {label} did not return within 10 s of its 3 ms timeout (the direct call returns Timeout)"))
+                    } else {
+                        None
+                    }
+                }
+            };
+            if let Some(m) = msg {
+                v.push(("C16.blocking".into(), m.clone()));
+                v.push(("C17.inside_runtime".into(), m));
+            }
+        }
+    }
     for t in ths {
         let (kind, res, el) = t.join().unwrap();
         *o.entry("C17.deadline").or_default() += 1;
@@ -769,6 +805,20 @@ fn round_blocking(rt: &tokio::runtime::Runtime, seed: u64, hb: &Heartbeat, tot: 
     let (dres, _) = dep_tell.join().unwrap();
     if !dres.is_ok() {
         v.push(("C17.deprecated_ignores_timeout".into(), format!("tell_blocking(Some(1 ms)) returned {dres:?} instead of waiting for a free slot")));
+    }
+    // 5b. every timeout value: a huge timeout on a responsive actor is just a successful call
+    for kind in [BKind::TellTo(u64::MAX), BKind::AskTo(u64::MAX), BKind::ErasedAsk(Some(u64::MAX))] {
+        let (a2, sh2) = (a.clone(), sh.clone());
+        let th = std::thread::spawn(move || send_blocking(&sh2, Ctx::Client(17), 0, &a2, kind, Body::plain(uid())));
+        *o.entry("C17.any_timeout_value").or_default() += 1;
+        match th.join() {
+            Ok((res, _)) => {
+                if !res.is_ok() {
+                    v.push(("C17.any_timeout_value".into(), format!("{kind:?} (Duration::from_millis(u64::MAX)) on a responsive actor returned {res:?}")));
+                }
+            }
+            Err(_) => v.push(("C17.any_timeout_value".into(), format!("{kind:?} with a huge timeout panicked in the calling thread: {:?}", PANICS.lock().unwrap().last()))),
+        }
     }
     // 6. per-thread program order and reply integrity with mixed blocking calls
     let mut ths = vec![];
@@ -872,7 +922,7 @@ fn round_blocking(rt: &tokio::runtime::Runtime, seed: u64, hb: &Heartbeat, tot: 
     }
     for (c, m) in v {
         let p = &c[..3];
-        if prop == "all" || prop == p || prop == "C17" {
+        if prop == "all" || prop == p || (prop == "C17" && p != "C16") {
             t.viol.push((c, m, seed, "blocking".to_string()));
         }
     }
@@ -1008,6 +1058,114 @@ fn round_starve(seed: u64, hb: &Heartbeat, tot: &Mutex<Tot>, prop: &str) {
                 ));
             }
         }
+    }
+}
+
+// ---------------------------------------------------------------------------------------------
+// mutual asks on real threads (C14): k actors each ask the next one at (nearly) the same instant
+// ---------------------------------------------------------------------------------------------
+#[cfg(feature = "f_deadlock")]
+mod dl {
+    use rsactor::{Actor, ActorRef, Message};
+    use std::sync::atomic::{AtomicUsize, Ordering};
+    use std::sync::Arc;
+    pub struct D;
+    pub struct Go {
+        pub peer: ActorRef<D>,
+        pub gate: Arc<AtomicUsize>,
+        pub n: usize,
+    }
+    pub struct Ping;
+    impl Actor for D {
+        type Args = ();
+        type Error = String;
+        async fn on_start(_: (), _: &ActorRef<Self>) -> Result<Self, String> {
+            Ok(D)
+        }
+    }
+    impl Message<Ping> for D {
+        type Reply = u8;
+        async fn handle(&mut self, _: Ping, _: &ActorRef<Self>) -> u8 {
+            1
+        }
+    }
+    impl Message<Go> for D {
+        type Reply = bool;
+        async fn handle(&mut self, g: Go, _: &ActorRef<Self>) -> bool {
+            // rendezvous: every participant spins until all are inside their handlers
+            g.gate.fetch_add(1, Ordering::SeqCst);
+            let t = std::time::Instant::now();
+            while g.gate.load(Ordering::SeqCst) < g.n && t.elapsed() < std::time::Duration::from_millis(200) {
+                std::hint::spin_loop();
+            }
+            g.peer.ask(Ping).await.is_ok()
+        }
+    }
+}
+
+#[cfg(feature = "f_deadlock")]
+async fn round_mutual(seed: u64, hb: &Heartbeat, tot: &Mutex<Tot>, prop: &str) {
+    use dl::*;
+    let mut r = Rng::new(seed);
+    let n = 2 + r.below(2) as usize;
+    let mut refs = vec![];
+    let mut jhs = vec![];
+    for _ in 0..n {
+        let (a, jh) = rsactor::spawn::<D>(());
+        refs.push(a);
+        jhs.push(jh);
+    }
+    let gate = Arc::new(std::sync::atomic::AtomicUsize::new(0));
+    let bucket0 = hb.now_bucket();
+    let mut asks = vec![];
+    for i in 0..n {
+        let a = refs[i].clone();
+        let go = Go { peer: refs[(i + 1) % n].clone(), gate: gate.clone(), n };
+        asks.push(tokio::spawn(async move { a.ask(go).await }));
+    }
+    let mut pending = 0;
+    let mut errs = 0;
+    for h in asks {
+        let mut h = h;
+        match tokio::time::timeout(Duration::from_secs(10), &mut h).await {
+            Ok(Ok(Ok(_))) => {}
+            Ok(_) => errs += 1,
+            Err(_) => {
+                pending += 1;
+                h.abort();
+            }
+        }
+    }
+    let mut panics = 0;
+    for (a, jh) in refs.iter().zip(jhs.into_iter()) {
+        let _ = a.kill();
+        if let Ok(Err(e)) = tokio::time::timeout(Duration::from_secs(10), jh).await {
+            if e.is_panic() && panic_payload_to_string(e.into_panic().as_ref()).contains("Deadlock detected") {
+                panics += 1;
+            }
+        }
+    }
+    let stalled = hb.max_late_since(bucket0) > STALL_US;
+    let mut t = tot.lock().unwrap();
+    t.rounds += 1;
+    *t.nontrivial.entry("C14".into()).or_default() += 1;
+    t.hashes.insert(mix(n as u64, (panics * 10 + errs) as u64));
+    if stalled && pending > 0 {
+        t.inconclusive.push(format!("mutualask round {seed}: watchdog fired while the machine was stalled"));
+        return;
+    }
+    *t.obl.entry("C14.detect").or_default() += 1;
+    if pending > 0 && (prop == "C14" || prop == "all" || prop == "C12") {
+        t.viol.push((
+            "C14.detect".into(),
+            format!("[mutual-asks] {n} actors asked each other in a ring at the same instant on a multi-thread runtime; {pending} of them were still waiting for each other 10 s later ({panics} deadlock panics were raised): the cycle was not detected"),
+            seed,
+            "mutualask".into(),
+        ));
+    }
+    if pending == 0 && panics == 0 && errs == 0 && gate.load(Ordering::SeqCst) >= n {
+        // all handlers were inside the ring at once and yet everything succeeded: impossible for a real cycle
+        t.viol.push(("C14.detect".into(), format!("[mutual-asks] a ring of {n} simultaneous asks completed without any deadlock report"), seed, "mutualask".into()));
     }
 }
 
@@ -1481,6 +1639,30 @@ pub fn cmd_mt(a: &Args) -> i32 {
                 });
                 rt.shutdown_timeout(Duration::from_secs(2));
             }
+            #[cfg(feature = "f_deadlock")]
+            "mutualask" => {
+                let rt = tokio::runtime::Builder::new_multi_thread().worker_threads(8).enable_time().build().unwrap();
+                rt.block_on(async {
+                    let mut hs = vec![];
+                    for lane in 0..3u64 {
+                        let (tot, hb, prop) = (tot.clone(), hb.clone(), prop.clone());
+                        hs.push(tokio::spawn(async move {
+                            let mut n = 0u64;
+                            while tp.elapsed() < per_profile {
+                                n += 1;
+                                round_mutual(mix(base, ((pi as u64) << 56) ^ (lane << 40) ^ n), &hb, &tot, &prop).await;
+                                if !tot.lock().unwrap().viol.is_empty() {
+                                    break;
+                                }
+                            }
+                        }));
+                    }
+                    for h in hs {
+                        let _ = h.await;
+                    }
+                });
+                rt.shutdown_timeout(Duration::from_secs(2));
+            }
             "starve" => {
                 let mut n = 0u64;
                 while tp.elapsed() < per_profile {
@@ -1527,7 +1709,7 @@ pub fn cmd_mt(a: &Args) -> i32 {
     #[cfg(feature = "f_testutils")]
     {
         let d = rsactor::dead_letter_count() - dl0;
-        if !tainted.load(Ordering::Relaxed) && profiles.iter().all(|p| p != "spawnstorm" && p != "tightrace" && p != "starve") {
+        if !tainted.load(Ordering::Relaxed) && profiles.iter().all(|p| p != "spawnstorm" && p != "tightrace" && p != "starve" && p != "mutualask") {
             *t.obl.entry("C13.counter").or_default() += 1;
             t.extra.insert("dead_letter_count_delta".into(), d);
             let fl = t.failures;
